@@ -145,6 +145,7 @@ BatchOK == (l > 1 /\ Cur.ev = "MBatch") =>
      /\ MapWellFormed(b.F[1]) /\ MapSizesAgree(b.F[1])
      /\ b.rid # rid /\ b.ti = typ /\ b.F[1].seed = Forest(Cur).seed
 OtherWellFormed == (l > 1 /\ Len(Cur.probe.other) = 1) => MapWellFormed(Cur.probe.other[1].F[1])
+OtherSizesAgree == (l > 1 /\ Len(Cur.probe.other) = 1) => MapSizesAgree(Cur.probe.other[1].F[1])
 RECURSIVE NoExternal(_)
 NoExternal(E) == \A i \in 1..Len(E.el) : E.el[i].t # "x" /\ (E.el[i].t = "g" => NoExternal(E.el[i].els[1]))
 Copyable(F) == /\ F.k = "md" /\ NoExternal(F.els[1])
@@ -158,12 +159,21 @@ CopyOK == (l > 1 /\ Cur.ev = "MCopy") =>
   /\ (~Cur.probe.can => Cur.res.class # "ok")
 SourceUnaffected == (l > 1 /\ Cur.ev \in {"MBatch", "MCopy", "MOtherDisposed"}) =>
   /\ ObsPairs(Cur) = Pairs(dict) /\ ForestPairs(Forest(Cur)) = Pairs(dict)
+  /\ MapWellFormed(Forest(Cur)) /\ MapSizesAgree(Forest(Cur))
   /\ (Cur.ev = "MOtherDisposed" => Cur.st.stored = Cur.st.reach)
 \* C18
 Rejected(r) == r.res.class \notin {"ok"} /\ r.ev \in {"MSet", "MGet", "MHas", "MRemove"}
 NoTraceOfRejected == (l > 2 /\ Rejected(Cur) /\ Trace[l - 2].t = Cur.t) =>
   /\ Root(Cur).fsum = Root(Trace[l - 2]).fsum
   /\ Cur.st.deltas = Trace[l - 2].st.deltas /\ Cur.st.stored = Trace[l - 2].st.stored /\ Cur.st.calls = Trace[l - 2].st.calls
+
+\* C07: re-encoding the decoded register gives the identical bytes; header flags are truthful
+CommitOK(r) == r.ev = "Commit" /\ r.res.class = "ok"
+ColdSlabNodes(r) == UNION {SlabNodes(r.cold[i].F[1]) : i \in 1..Len(r.cold)}
+ReencodesExactly == (l > 1 /\ CommitOK(Cur)) => \A i \in 1..Len(Cur.regs) : Cur.regs[i].reenc
+FlagsTruthful == (l > 1 /\ CommitOK(Cur)) => \A i \in 1..Len(Cur.regs) : FlagsOf(Cur.regs[i], ColdSlabNodes(Cur))
+\* C06: the size a slab reports equals the bytes written
+EncodedLenRelation == (l > 1 /\ CommitOK(Cur)) => \A i \in 1..Len(Cur.regs) : SizeOf(Cur.regs[i], ColdSlabNodes(Cur))
 
 TraceAccepted ==
   LET d == TLCGet("stats").diameter IN
